@@ -1,18 +1,19 @@
 #!/bin/bash
 # Confirms a seeded change in its scratch worktree: tests green with the patch, demo fails with it, passes without.
-ID=$1; WT=/tmp/seed-$ID; OUT=/tmp/seed-$ID-out; export CARGO_TARGET_DIR=$WT-target CARGO_NET_OFFLINE=true
+# usage: verify_seed.sh <ID> [worktree]   (default worktree /root/scratch/seed2-<ID>; deliverables in <worktree>-out)
+ID=$1; WT=${2:-/root/scratch/seed2-$ID}; OUT=$WT-out; export CARGO_TARGET_DIR=$WT-target CARGO_NET_OFFLINE=true
 cd $WT || exit 2
 {
 echo "== $ID: patch stat"; git diff --stat | tail -3
 echo "== tests with patch"
 cargo test --offline -p prqlc -p prqlc-parser 2>&1 | grep -E "^test result|FAILED|failed" | head -12
 cp $OUT/demo.rs prqlc/prqlc/examples/seed_demo.rs
-echo "== demo with patch"; cargo run --offline -q -p prqlc --example seed_demo >/tmp/seed-$ID-demo-with.txt 2>&1; echo "exit=$?"; tail -3 /tmp/seed-$ID-demo-with.txt
+echo "== demo with patch"; cargo run --offline -q -p prqlc --example seed_demo >$OUT/demo-with.txt 2>&1; echo "exit=$?"; tail -3 $OUT/demo-with.txt
 rm -f prqlc/prqlc/examples/seed_demo.rs
-git diff > /tmp/seed-$ID-cur.diff; git apply -R /tmp/seed-$ID-cur.diff
+git diff > $OUT/cur.diff; git apply -R $OUT/cur.diff
 cp $OUT/demo.rs prqlc/prqlc/examples/seed_demo.rs
-echo "== demo without patch"; cargo run --offline -q -p prqlc --example seed_demo >/tmp/seed-$ID-demo-without.txt 2>&1; echo "exit=$?"; tail -2 /tmp/seed-$ID-demo-without.txt
+echo "== demo without patch"; cargo run --offline -q -p prqlc --example seed_demo >$OUT/demo-without.txt 2>&1; echo "exit=$?"; tail -2 $OUT/demo-without.txt
 rm -f prqlc/prqlc/examples/seed_demo.rs
-git apply /tmp/seed-$ID-cur.diff
+git apply $OUT/cur.diff
 } > $OUT/verify.log 2>&1
 cat $OUT/verify.log
